@@ -19,6 +19,9 @@ CHECKS = {
  "C01": dict(text="Seeded search: the current tree's accfg-trace-states and accfg-dedup are run on thousands of generated accfg programs; reference and deduplicated program are both executed on a simulated core with asynchronous accelerator register files under the same seeded environments (trip counts incl. 0, branch outcomes, register clobbers by effectful calls, device latencies) and their launch/await/call histories and register snapshots at launches are compared. Evidence of absence within the bounds, not proof.",
               note="Trusts the IR interpreter and device model in /verif (assumptions A1-A3), xDSL 0.70 + irdl_options shim instead of the pinned xDSL commit; bounds: <=24 statements, nesting<=3, <=2 accelerators x <=6 fields, trip counts 0..4 and 9.",
               tech="deterministic simulation of the emitted accfg program (reference vs deduplicated) with seeded clobber/latency faults; history refinement oracle", ref="5 C01"),
+ "C04": dict(text="Seeded search over (accelerator configuration, accfg program) pairs: the register map comes from generate_acc_op() of the current tree for seeded streamer configurations of every accelerator class; the program is lowered by convert-accfg-to-csr and executed on a CSR-level device model (registers by address, launch/busy/barrier conventions, RoCC decoder) next to the accfg-level reference under clobber, latency and CSR-garbage faults. Compared: per-field write history through the declared map, register snapshot by address at every launch (where a non-injective map shows), await behaviour, RoCC operand pairs, and that no accfg value survives.",
+              note="Trusts the CSR device model written from the docstrings in accelerators/snax.py (polling conventions, status registers at launch_streamer+1/+2, clearing write 0x3c5 for hwpe_mult); barrier styles 2 and 4 (unused by any accelerator class) and gemmx mult_vals launches are not exercised; PHS accelerator built with a duck-typed PE/template; values compared mod 2^32 / 2^64.",
+              tech="deterministic simulation of the lowered CSR program against a device model with seeded latency / CSR-garbage / clobber faults; refinement of the accfg-level history through the declared register map", ref="5 C04"),
  "C06": dict(text="Seeded search as C01 with the subject accfg-config-overlap applied to traced / deduplicated programs, compared against its own input only on environments where that input was right and its state links truthful; also static SSA dominance and run-time undefined-value detection. One genuine defect is recorded as known finding KF-C06-1.",
               note="As C01; large latencies make moved setups execute inside the accelerator's busy window (probe setup-while-busy); known finding KF-C06-1 masks launch-snapshot mismatches only in programs whose loop body has two setups of one accelerator followed by a later setup of it, with dedup before overlap.",
               tech="deterministic simulation (reference vs overlapped program) with seeded clobber/latency faults; history refinement + dominance oracle", ref="5 C06"),
